@@ -10,4 +10,6 @@ for n in $(seq -w 1 20); do
   echo "C$n $TIER exit=$RC wall=$(( $(date +%s) - S ))s"
   [ "$RC" = 0 ] || BAD=1
 done
+# every contract a property only uses must be discharged by a unit of the same property (or be a listed external)
+python3 tools/closure_audit.py || BAD=1
 exit $BAD
